@@ -27,6 +27,7 @@ def projOwn : Own → Fan.Owner
   | .d => .d
   | .w i => .w i
   | .s => .none
+  | .g => .none
 
 def proj (s : St) : Fan.St :=
   { v := s.v, f := s.f, i := s.i, dpc := s.dpc, tc := s.tc, own := projOwn s.own, sig := s.sig, ws := s.ws.map projW }
@@ -42,7 +43,7 @@ def projWAct : WAct → Option Fan.WAct
   | .unlock => some .unlock
 
 def projL : Label → Option Fan.Label
-  | .d .createS | .d .cancelS => none
+  | .d .createS | .d .cancelS | .d .createG | .d .cancelG | .d .joinG => none
   | .d .lock => some (.d .lock)
   | .d .wait => some (.d .wait)
   | .d (.wake sp) => some (.d (.wake sp))
@@ -53,13 +54,14 @@ def projL : Label → Option Fan.Label
   | .w i a => (projWAct a).map (.w i)
   | .s _ => none
   | .e _ => none
+  | .g _ => none
 
 /-- `_cancel_pending_threads` has not run: no slot is CANCELED, the signals thread does not hold threadcount_mutex -/
 structure NoCancel (s : St) : Prop where
   ts : ∀ j, tsAt s j ≠ .canceled
   own : s.own ≠ .s
 
-theorem proj_init (v g f n b t0) : proj (init v g f n b t0) = Fan.init v f n := by
+theorem proj_init (v g sw f n b t0) : proj (init v g sw f n b t0) = Fan.init v f n := by
   simp [proj, init, Fan.init, projOwn, projW]
 
 theorem skipRun_none : ∀ (l : List TS), (∀ k, l.getD k .new ≠ .canceled) → skipRun l = 0
@@ -84,6 +86,7 @@ theorem tbl_proj {g : Bool} {a : WAct} {p q : WP} {c : Bool} (h : wNext g a p c 
 theorem nocancel_step {s s' : St} {l : Label} (ht : TInv s) (h : NoCancel s) (hl : l ≠ .s .lock)
     (hs : step s l = some s') : NoCancel s' := by
   cases l with
+  | g a => rw [g_step_frame (step_wd hs)]; exact ⟨h.ts, h.own⟩
   | e a =>
     obtain ⟨_, hts, _, _, _, _, _, hown, _, _⟩ := e_step_frame (step_e hs)
     exact ⟨fun j => by rw [tsAt_congr hts]; exact h.ts j, by rw [hown]; exact h.own⟩
@@ -122,7 +125,7 @@ theorem nocancel_step {s s' : St} {l : Label} (ht : TInv s) (h : NoCancel s) (hl
     · exact h.own
     · simp
 
-theorem projOwn_none {o : Own} (h : o ≠ .s) : projOwn o = .none ↔ o = .none := by
+theorem projOwn_none {o : Own} (h : o ≠ .s) (hg : o ≠ .g) : projOwn o = .none ↔ o = .none := by
   cases o <;> simp_all [projOwn]
 
 /-- one step of the extended system, seen through the projection: a step of the Fan LTS, or nothing -/
@@ -131,6 +134,7 @@ theorem proj_step {s s' : St} {l : Label} (hinv : Inv s) (hnc : NoCancel s) (hs 
     | some l' => Fan.step (proj s) l' = some (proj s')
     | none => proj s' = proj s := by
   cases l with
+  | g a => rw [g_step_frame (step_wd hs)]; simp only [projL]; rfl
   | e a =>
     obtain ⟨hws, _, htc, hdpc, hi, hsig, hf, hown, _, _⟩ := e_step_frame (step_e hs)
     have hv : s'.v = s.v := (step_params hs).1
@@ -188,9 +192,12 @@ theorem proj_step {s s' : St} {l : Label} (hinv : Inv s) (hnc : NoCancel s) (hs 
   | d a =>
     have hd := step_d hs
     cases a with
+    | createG => rw [d_wd_frame (Or.inl rfl) hd]; simp only [projL]; rfl
+    | cancelG => rw [d_wd_frame (Or.inr (Or.inl rfl)) hd]; simp only [projL]; rfl
+    | joinG => rw [d_wd_frame (Or.inr (Or.inr rfl)) hd]; simp only [projL]; rfl
     | createS =>
       simp only [dStep] at hd
-      split at hd <;> simp at hd; subst hd
+      split at hd <;> (try split at hd) <;> simp at hd; subst hd
       simp [projL, proj]
     | cancelS =>
       simp only [dStep] at hd
@@ -278,8 +285,8 @@ theorem proj_step {s s' : St} {l : Label} (hinv : Inv s) (hnc : NoCancel s) (hs 
       simp [hdp]
 
 /-- a cancel-free run of the extended system projects to a run of the Fan LTS -/
-theorem proj_exec {v : Variant} {g : Bool} {f n t0 : Nat} {b : Bool} {ls : List Label} {s : St}
-    (he : Exec (init v g f n b t0) ls s) (hl : ∀ l ∈ ls, l ≠ .s .lock) :
+theorem proj_exec {v : Variant} {g sw : Bool} {f n t0 : Nat} {b : Bool} {ls : List Label} {s : St}
+    (he : Exec (init v g sw f n b t0) ls s) (hl : ∀ l ∈ ls, l ≠ .s .lock) :
     Fan.Exec (Fan.init v f n) (ls.filterMap projL) (proj s) ∧ NoCancel s := by
   induction he with
   | nil =>
@@ -288,7 +295,7 @@ theorem proj_exec {v : Variant} {g : Bool} {f n t0 : Nat} {b : Bool} {ls : List 
   | snoc he' hs ih =>
     rename_i ls0 s1 l s2
     obtain ⟨ihe, ihn⟩ := ih (fun l hl' => hl l (by simp [hl']))
-    have hinv := inv_exec (inv_init v g f n b t0) he'
+    have hinv := inv_exec (inv_init v g sw f n b t0) he'
     have hnc := nocancel_step hinv.t ihn (hl l (by simp)) hs
     refine ⟨?_, hnc⟩
     have hp := proj_step hinv ihn hs
